@@ -235,7 +235,9 @@ def robustness_grid(da, rng: random.Random, tier_: str, out: Outcome) -> list[di
                 for fam in (fams or ['manifest']):
                     routes = families[fam]
                     if name.startswith(('ping__', 'scte35__')) and fam == 'media':
-                        routes = ['media-num', 'media-vod']      # in-band events live in video segments
+                        # in-band events live in video segments; the static segment 3 always carries one
+                        chosen.append(('media-vod', name, vc))
+                        routes = ['media-num', 'media-enc']
                     chosen.append((rng.choice(routes), name, vc))
         combos = chosen
     capped: set[tuple[str, str | None]] = set()
